@@ -104,7 +104,8 @@ Failed(e) ==
               \/ r.proj_hi # (IF o.has_high THEN [tag |-> "val", v |-> e.a.hi] ELSE [tag |-> "max"]))}
          \cup {c \in {"C14.tuple"} : r.has_proj /\
              (\/ r.tuple_lo # (IF o.has_low THEN [tag |-> "val", v |-> e.a.lo] ELSE [tag |-> "min"])
-              \/ r.tuple_hi # (IF o.has_high THEN [tag |-> "val", v |-> e.a.hi] ELSE [tag |-> "max"]))}
+              \/ r.tuple_hi # (IF o.has_high THEN [tag |-> "val", v |-> e.a.hi] ELSE [tag |-> "max"])
+              \/ ~r.tuple_repr_eq)}
          \cup {c \in {"C14.optpair"} :
              \/ r.opt_lo.some # o.has_low \/ r.opt_hi.some # o.has_high
              \/ (o.has_low /\ r.opt_lo.v # e.a.lo) \/ (o.has_high /\ r.opt_hi.v # e.a.hi)}
@@ -151,8 +152,10 @@ Failed(e) ==
          {c \in {"C19.kind_aware"} : ~same /\ e.res}
          \cup {c \in {"C19.boundwise"} : same /\ e.res # expected}
          \cup {c \in {"C19.symmetric"} : e.res_sym # e.res}
-         \cup {c \in {"C19.reflexive"} : ~e.res_refl}
-         \cup {c \in {"C19.implied_by_eq"} : e.exact_eq /\ ~e.res}
+         \* an interval compared with ITSELF (the same object) is judged bound by bound like any other pair
+         \cup {c \in {"C19.reflexive"} : e.res_refl # (e.self_lo /\ e.self_hi)}
+         \cup {c \in {"C19.default_tolerances"} : ~e.defaults_same}
+         \cup {c \in {"C19.implied_by_eq"} : e.exact_eq /\ e.self_lo /\ e.self_hi /\ ~e.res}
          \cup {c \in {"C19.ne_is_negation"} : e.res_ne # ~e.res \/ e.res_ne_sym # ~e.res_sym}
 
 \* Clauses an event exercises (for the vacuity guard).
@@ -176,7 +179,8 @@ Clauses(e) ==
                                    ELSE {"C13.relative_wellformed", "C13.relative_sound", "C13.relative_tight"})
                                   \cup (IF "dexp" \in DOMAIN e /\ ~RelPanics(e.a, e.b) THEN {"C13.relative_scale_free"} ELSE {})
     [] e.op = "iv.display" -> {"C19.display"} \cup (IF e.ty \in {"f64ext", "Stringlong"} THEN {"C19.display_long_elements"} ELSE {})
-    [] e.op = "iv.approx" -> {"C19.symmetric", "C19.reflexive", "C19.ne_is_negation"}
+    [] e.op = "iv.approx" -> {"C19.symmetric", "C19.reflexive", "C19.ne_is_negation", "C19.default_tolerances"}
+                             \cup (IF ~(e.self_lo /\ e.self_hi) THEN {"C19.self_comparison_fails_elementwise"} ELSE {})
                              \cup (IF e.a.k = e.b.k THEN {"C19.boundwise"} ELSE {"C19.kind_aware"})
                              \cup (IF e.exact_eq THEN {"C19.implied_by_eq"} ELSE {})
 
